@@ -103,10 +103,52 @@ def check_container(ctx, g, w, c, fails, flags):
         fails.append(Failure("oracle", None, "mutating the list returned by .records changed the container", {"ops": list(w.ops)}))
 
 
+def adoption_scenario(ctx, g, w, fails, flags):
+    """a bundle without a default namespace answers for a bare name through its document, then adopts another default namespace
+    from records that arrive (update / add_record): the bare name now denotes something else, and lookups must follow"""
+    d = w.new_doc()
+    w.add_ns(d, "ex", "http://example.org/")
+    w.set_default(d, "http://d1/")
+    bh, _e = w.bundle(d, "ex:b%d" % g.rng.randint(0, 9))
+    if bh is None:
+        return None
+    loc = g.choice(["e", "x", "a1"])
+    w.new_record(bh, g.choice(["Entity", "Agent"]), loc, [])
+    for x in g.rng.sample([loc, "http://d1/" + loc, "absent"], 2):
+        w.get_record(bh, x)
+    o = w.new_doc()
+    w.set_default(o, "http://default2/")
+    w.new_record(o, "Entity", loc, [])
+    if g.chance(0.5):
+        w.update(bh, o)
+    else:
+        w.add_record(bh, w.rec_at(o, 0))
+    flags.add("default-adopted-after-lookup")
+    for x in ("http://d1/" + loc, "http://default2/" + loc):
+        w.get_record(bh, x)
+    # the bundle's own default namespace is now the adopted one: that is what a bare name denotes (C03: the manager's own
+    # default comes before the parent's), whatever it denoted when it was first asked
+    bobj = w.conts[bh]
+    dflt = bobj.get_default_namespace()
+    if dflt is not None and dflt.uri == "http://default2/":
+        w.get_record(bh, loc)
+        got_idx = w.outs[-1]["recs"]
+        exp = expected_indices(bobj, "http://default2/" + loc)
+        if got_idx != exp:
+            fails.append(Failure("oracle", None, "get_record(%r) in a bundle whose default namespace is now http://default2/ returned records %s, "
+                                 "the record list has %s under http://default2/%s" % (loc, got_idx, exp, loc),
+                                 {"ops": list(w.ops), "expect_recs": exp}))
+    check_container(ctx, g, w, bh, fails, flags)
+    w.obs(d)
+    return d
+
+
 def make_case(ctx, g):
     w = World()
     fails = []
     flags = set()
+    if g.chance(0.08):
+        adoption_scenario(ctx, g, w, fails, flags)
     b = DocBuilder(g, w, repeat_id=0.35, malformed=0.02)
     docs = []
     for _ in range(g.rng.randint(1, 2)):
